@@ -1,5 +1,5 @@
 SPECIFICATION TraceSpec
 CONSTANT Block = 4096
-INVARIANTS InvAccounting InvLogical InvWithinMax InvReserved InvMapList InvCount InvFiles
+INVARIANTS InvAccounting InvLogical InvWithinMax InvReserved InvMapList InvCount
 POSTCONDITION TraceAccepted
 CHECK_DEADLOCK FALSE
